@@ -38,7 +38,7 @@ if [ "$TIER" = "thorough" ] && [ $rc -eq 0 ] && [ ${#ARGS[@]} -eq 0 ]; then
     C02) TARGETS="script:2000000:1024";;
     C09) TARGETS="decoders:2000000:1024 tx:1000000:2048 script:1000000:1024 asm:1000000:512";;
     C14) TARGETS="interp:400000:256";;
-    C16) TARGETS="interp:400000:256";;
+    C16) TARGETS="interp:400000:256 interptx:400000:400";;
     C17) TARGETS="asm:2000000:512";;
     *) TARGETS="";;
   esac
